@@ -242,10 +242,10 @@ def run(ctx) -> None:
     # position {0, 1, 2} x preceding character {'.', other} x last character {'.', other}.
     from sa.model import CannotFold as _CF
 
-    def _parents_of(target: ast.AST) -> T.List[T.Tuple[ast.If, T.List[ast.stmt]]]:
-        out_: T.List[T.Tuple[ast.If, T.List[ast.stmt]]] = []
+    def _parents_of(target: ast.AST) -> T.List[T.Tuple[ast.If, T.List[ast.stmt], bool]]:
+        out_: T.List[T.Tuple[ast.If, T.List[ast.stmt], bool]] = []
 
-        def rec(stmts: T.List[ast.stmt], chain: T.List[T.Tuple[ast.If, T.List[ast.stmt]]]) -> bool:
+        def rec(stmts: T.List[ast.stmt], chain: T.List[T.Tuple[ast.If, T.List[ast.stmt], bool]]) -> bool:
             for st_ in stmts:
                 if st_ is target:
                     out_.extend(chain)
@@ -253,42 +253,49 @@ def run(ctx) -> None:
                 for fld_ in ("body", "orelse"):
                     sub_ = getattr(st_, fld_, None)
                     if isinstance(sub_, list) and sub_ and isinstance(sub_[0], ast.stmt):
-                        if rec(sub_, chain + ([(st_, stmts)] if isinstance(st_, ast.If) and fld_ == "body" else [])):
+                        if rec(sub_, chain + ([(st_, stmts, fld_ == "body")] if isinstance(st_, ast.If) else [])):
                             return True
             return False
         rec(cv.node.body, [])
         return out_
     n_zero_guards = 0
     for n in rsites:
-        chain = _parents_of(n.ast)
+        chain = [c_ for c_ in _parents_of(n.ast) if not any(isinstance(x_, (ast.Continue, ast.Break)) for x_ in ast.walk(c_[0]))]
         if not chain:
             continue
-        inner_if, siblings = chain[-1]
-        names_ = {x.id for x in ast.walk(inner_if.test) if isinstance(x, ast.Name)}
-        pre_ = [st_ for st_ in siblings[:siblings.index(inner_if)] if isinstance(st_, ast.Assign)]
-        reads_find = any(isinstance(c_, ast.Call) and isinstance(c_.func, ast.Attribute) and c_.func.attr in ("find", "index") for st_ in pre_ for c_ in ast.walk(st_)) or \
-            any(isinstance(c_, ast.Call) and isinstance(c_.func, ast.Attribute) and c_.func.attr in ("find", "index") for c_ in ast.walk(inner_if.test))
-        if not reads_find:
-            continue          # not the position-dependent site
-        n_zero_guards += 1
         part_v = n.ast.value.args[0].id
         pat_v = unparse(n.ast.value.func.value)
         wrong_: T.List[str] = []
+        results_: T.List[bool] = []
         try:
             for k_ in (0, 1, 2):
                 for prev_ in (".", "x"):
                     for last_ in (".", "x"):
                         text_ = ("x" * max(0, k_ - 1) + prev_ if k_ else "") + "PP" + "y" + last_
                         env_: T.Dict[str, T.Any] = {pat_v: text_, part_v: "PP"}
-                        prog._propagate(cv.module, pre_, env_, cv.fq)
-                        got_ = bool(prog.fold(cv.module, inner_if.test, env_))
+                        got_ = True
+                        for if_, siblings_, in_body_ in chain:
+                            for st_ in siblings_[:siblings_.index(if_)]:
+                                if isinstance(st_, ast.Assign) and len(st_.targets) == 1 and isinstance(st_.targets[0], ast.Name) and st_.targets[0].id not in (pat_v, part_v):
+                                    try:
+                                        prog._propagate(cv.module, [st_], env_, cv.fq)
+                                    except _CF:
+                                        env_.pop(st_.targets[0].id, None)          # not needed, or the guard itself will not fold
+                            t_ = bool(prog.fold(cv.module, if_.test, env_))
+                            got_ = got_ and (t_ if in_body_ else not t_)
+                            if not got_:
+                                break
+                        results_.append(got_)
                         if got_ != (k_ == 0 or prev_ == "."):
                             wrong_.append(f"part at index {k_} of {text_!r}: zero padding {'dropped' if got_ else 'kept'}")
         except _CF as ex_:
             raise AnalysisError(f"_convert_to_pep440: guard of the numeric substitution not foldable ({ex_})")
+        if not any(results_):
+            continue          # a site that never runs for a numeric part (the tag branch)
+        n_zero_guards += 1
         ctx.check("R5", not wrong_, "_convert_to_pep440: a numeric part is replaced by its unpadded form exactly at the start of a release component (12 cases folded)",
                   "v2patterns._convert_to_pep440: zero padding is dropped / kept at the wrong positions",
-                  f"`{unparse(inner_if.test)}`: {'; '.join(wrong_[:3])} - PEP 440 drops leading zeros per dot-separated component only", loc=cv.loc(inner_if), witness={"cases": wrong_[:4]})
+                  f"site `{unparse(n.ast)}`: {'; '.join(wrong_[:3])} - PEP 440 drops leading zeros per dot-separated component only", loc=cv.loc(n.ast), witness={"cases": wrong_[:4]})
     ctx.floor("R5", "position-dependent (zero truncation) guards in _convert_to_pep440", n_zero_guards, 1)
     src_if = [n for n in walk_no_nested(cv.node) if isinstance(n, ast.If) and "startswith('v')" in unparse(n.test)]
     ok = len(src_if) == 1 and any(isinstance(s, ast.Assign) and unparse(s.value).endswith("[1:]") for s in src_if[0].body)
